@@ -88,6 +88,7 @@ func (h *inFlightRequestsHandler) onOutgoingFrameEnqueued(f *frame.Frame) (InFli
 		err = fmt.Errorf("%v: stream id already in use: %d", h, streamId)
 	}
 	h.inFlightLock.RUnlock()
+	verifPoint("inflight.enqueue.afterCheck")
 	if err == nil {
 		var inFlight *inFlightRequest
 		inFlight, err = h.addInFlight(streamId, managedStreamId)
@@ -112,6 +113,7 @@ func (h *inFlightRequestsHandler) onIncomingFrameReceived(f *frame.Frame) error 
 		err = fmt.Errorf("%v: unknown stream id: %d", h, streamId)
 	}
 	h.inFlightLock.RUnlock()
+	verifPoint("inflight.incoming.afterLookup")
 	if err == nil {
 		if isLastFrame(f) {
 			h.removeInFlight(streamId)
